@@ -75,6 +75,11 @@ enum Op {
     /// a thread that logs an error record for module p, which every specification of the
     /// alphabet (and the initial one) admits: whenever it comes, the record must be written
     LogP,
+    /// set_new_spec(A) / set_new_spec(D) / parse_new_spec(B) through one LoggerHandle that the
+    /// threads share by reference and that is never cloned (the methods take &self)
+    SharedSetA,
+    SharedSetD,
+    SharedParseB,
 }
 const OPS: [Op; 6] = [Op::SetA, Op::ParseB, Op::PushC, Op::PushPopC, Op::SetD, Op::WatcherE];
 
@@ -114,6 +119,10 @@ fn harnesses(tier: &str) -> Vec<Vec<Op>> {
         v.push(vec![OPS[a], Op::Probe]);
         v.push(vec![OPS[a], Op::LogQ]);
         v.push(vec![OPS[a], Op::LogP]);
+    }
+    for pair in [[Op::SharedSetA, Op::SharedSetD], [Op::SharedSetA, Op::SharedParseB], [Op::SharedParseB, Op::SharedSetD], [Op::SharedSetA, Op::SharedSetA]] {
+        v.push(pair.to_vec());
+        v.push(vec![pair[0], pair[1], Op::Probe]);
     }
     for pair in [[Op::SetA, Op::WatcherE], [Op::WatcherE, Op::SetD], [Op::ParseB, Op::WatcherE], [Op::PushPopC, Op::WatcherE]] {
         v.push(vec![pair[0], pair[1], Op::Probe]);
@@ -239,8 +248,12 @@ fn body(ops: Vec<Op>) -> Arc<dyn Fn(&Arc<Sched>) -> Obs + Send + Sync> {
         let logger: Arc<Box<dyn Log>> = Arc::new(logger);
         let mut hs = Vec::new();
         let probed: Arc<std::sync::Mutex<Option<LevelFilter>>> = Arc::new(std::sync::Mutex::new(None));
+        let shared_mode = ops.iter().any(|o| matches!(o, Op::SharedSetA | Op::SharedSetD | Op::SharedParseB));
+        // (in shared mode no clone of the handle is ever made)
+        let handle = Arc::new(handle);
         for (i, op) in ops.iter().enumerate() {
-            let mut h = handle.clone();
+            let shared = Arc::clone(&handle);
+            let mut h = if shared_mode { None } else { Some((*handle).clone()) };
             let op = *op;
             let probed = Arc::clone(&probed);
             let lq = Arc::clone(&logger);
@@ -248,17 +261,21 @@ fn body(ops: Vec<Op>) -> Arc<dyn Fn(&Arc<Sched>) -> Obs + Send + Sync> {
                 match op {
                     Op::LogP => lq.log(&log::Record::builder().args(format_args!("from p")).level(log::Level::Error).target("p").module_path(Some("p")).build()),
                     Op::LogQ => lq.log(&log::Record::builder().args(format_args!("from q")).level(log::Level::Error).target("q").module_path(Some("q")).build()),
-                    Op::WatcherE => h.verif_subscriber_set_new_spec(spec(5).build()).expect("subscriber"),
+                    Op::SharedSetA => shared.set_new_spec(spec(0).build()),
+                    Op::SharedSetD => shared.set_new_spec(spec(3).build()),
+                    Op::SharedParseB => shared.parse_new_spec(&spec(1).text()).expect("well-formed"),
+                    Op::WatcherE => h.as_mut().unwrap().verif_subscriber_set_new_spec(spec(5).build()).expect("subscriber"),
                     Op::Probe => *probed.lock().unwrap() = Some(log::max_level()),
-                    Op::SetA => h.set_new_spec(spec(0).build()),
-                    Op::ParseB => h.parse_new_spec(&spec(1).text()).expect("well-formed"),
-                    Op::PushC => h.push_temp_spec(spec(2).build()),
+                    Op::SetA => h.as_mut().unwrap().set_new_spec(spec(0).build()),
+                    Op::ParseB => h.as_mut().unwrap().parse_new_spec(&spec(1).text()).expect("well-formed"),
+                    Op::PushC => h.as_mut().unwrap().push_temp_spec(spec(2).build()),
                     Op::PushPopC => {
-                        h.push_temp_spec(spec(2).build());
-                        h.pop_temp_spec();
+                        h.as_mut().unwrap().push_temp_spec(spec(2).build());
+                        h.as_mut().unwrap().pop_temp_spec();
                     }
-                    Op::SetD => h.set_new_spec(spec(3).build()),
+                    Op::SetD => h.as_mut().unwrap().set_new_spec(spec(3).build()),
                 }
+                drop(shared);
                 // keep the clone alive: dropping a handle clone shuts the writers down (C04)
                 std::mem::forget(h);
             }));
@@ -304,6 +321,9 @@ fn candidates(ops: &[Op]) -> Vec<usize> {
             Op::PushPopC => vec![Step::Save, Step::Set(2), Step::Restore],
             Op::SetD => vec![Step::Set(3)],
             Op::WatcherE => vec![Step::Set(5)],
+            Op::SharedSetA => vec![Step::Set(0)],
+            Op::SharedSetD => vec![Step::Set(3)],
+            Op::SharedParseB => vec![Step::Set(1)],
             Op::Probe | Op::LogQ | Op::LogP => vec![],
         })
         .collect();
